@@ -21,7 +21,7 @@ ROUTE_BUGS = {"bug1": "ContentPreserved", "bug2": "SameCompiledClass", "bug3": "
 VIOLATION_KINDS = {"compile_failed", "route_step_failed", "published_program_changed", "entry_points_changed",
                    "class_changed", "compiled_class_differs", "class_hash_differs", "class_hash_failed",
                    "direct_differs", "config_changes_class", "pythonic_hints_misaligned", "pythonic_hints_missing",
-                   "view_failed"}
+                   "view_failed", "limit_rejects_fitting_class"}
 
 
 def routes(chk, cfg):
